@@ -24,19 +24,25 @@ def sh(cmd, cwd=None):
     return p.returncode, p.stdout + p.stderr
 
 
+ONLY: list = []
+
+
 def with_patch(patch):
     """checks that fire on a scratch worktree of /repo HEAD with ``patch`` applied (None: does not apply)."""
     with Scratch(patch) as sc:
         if not sc.applied:
             return None
-        return run_all(root=sc.dir)
+        return run_all(root=sc.dir, only=ONLY or None)
 
 
 def main():
     args = [a for a in sys.argv[1:] if not a.startswith("--")]
+    for a in sys.argv[1:]:
+        if a.startswith("--only="):
+            ONLY.extend(a.split("=", 1)[1].split(","))
     do_seeds = "--benign" not in sys.argv or "--seeds" in sys.argv
     do_benign = "--seeds" not in sys.argv or "--benign" in sys.argv
-    base = run_all()
+    base = run_all(only=ONLY or None)
     if base:
         print("unchanged tree is not silent:", sorted(base))
         return 2
@@ -51,6 +57,9 @@ def main():
             if fired is None:
                 print(f"SEED {name}: patch no longer applies")
                 bad += 1
+                continue
+            if ONLY and meta["property"] not in ONLY:
+                print(f"SEED {name}: fired={sorted(fired)} (own property not selected)")
                 continue
             own = meta["property"] in fired
             print(f"SEED {name}: own={'CAUGHT' if own else 'MISSED'} fired={sorted(fired)}")
